@@ -253,6 +253,13 @@ class CxxParser:
                     if tok.type != ">" and expected != ">":
                         raise self._parse_error(tok, expected)
 
+                    # a '>' that is not the expected closer can only be a
+                    # greater-than: it never closes a '<' that was opened
+                    # outside of the current bracket
+                    if tok.type == ">":
+                        match_stack.append(expected)
+                        continue
+
                     for i, maybe in enumerate(reversed(match_stack)):
                         if tok.type == maybe:
                             for _ in range(i + 1):
